@@ -41,5 +41,5 @@ FromBoth == BOOLEAN
 FromRef == {FALSE}
 GOne == {<<1, 1>>}
 DesignsLit == { D(<<"fuel", "plenum">>, <<5, 4>>, 3), D(<<"fuelb", "bigfuel">>, <<5, 5>>, 2) }
-DesignsEmitThorough == DesignsEmit \cup { D(<<"shield", "fuel">>, <<4, 5>>, 3), D(<<"shield", "fuel", "plenum">>, <<3, 5, 4>>, 4), D(<<"fuel", "afuel">>, <<5, 3>>, 4) }
+DesignsEmitThorough == DesignsEmit \cup { D(<<"shield", "fuel">>, <<4, 5>>, 3) }
 =====================================================================================================
